@@ -115,7 +115,7 @@ class Big:
             return r.choice(sc["str"])
         if k == "cat" and d > 0:
             self.features.add("str-concat")
-            left = r.choice(sc["str"]) if sc["str"] else f"str({self.int_expr(sc, 0)})"      # literal + literal is a known finding (C06 witness list)
+            left = self.str_expr(sc, d - 1)
             return f"{left} + {self.str_expr(sc, d - 1)}"
         if k == "fstr":
             self.features.add("f-string")
